@@ -1540,6 +1540,289 @@ mod h3err {
     }
 }
 
+/// Family "H3DG" (C18 at connection level): h3 with h3-datagram over h3-quinn against a raw Quinn peer.  Sending: `DatagramSender` for
+/// the scenario's stream ids and payloads, the raw peer records the datagrams it reads byte for byte.  Receiving: the raw peer sends the
+/// scenario's raw datagrams (valid and invalid), `DatagramReader::read_datagram` results are recorded; after an error the driver's next
+/// result and the close the raw peer sees are recorded too.  Judged by C18D_Trace with the operators of Datagram.tla.
+mod h3dg {
+    use super::*;
+    use crate::proj;
+    use crate::util::bytes_of;
+    use h3_datagram::datagram_handler::HandleDatagramsExt;
+
+    const WAIT: Duration = Duration::from_secs(2);
+    type Log = Arc<std::sync::Mutex<Vec<Value>>>;
+    fn push(log: &Log, v: Value) {
+        log.lock().unwrap().push(v);
+    }
+    fn send_err(e: &h3_datagram::datagram_handler::SendDatagramError) -> Value {
+        use h3_datagram::datagram_handler::SendDatagramError as E;
+        match e {
+            E::NotAvailable { .. } => json!({"k": "not_available"}),
+            E::TooLarge { .. } => json!({"k": "too_large"}),
+            E::ConnectionError { 0: c, .. } => proj::conn_err(c),
+            _ => json!({"k": "unknown"}),
+        }
+    }
+
+    // what both roles do with the sender / reader they got from their connection object
+    macro_rules! datagram_io {
+        ($log:expr, $conn:expr, $sends:expr, $go:expr, $expect:expr, $done:expr) => {{
+            for s in $sends.iter() {
+                let sid = crate::util::u64_of(&s["sid"]);
+                let payload = bytes_of(&s["payload"]);
+                let mut tx = $conn.get_datagram_sender(h3::quic::StreamId::try_from(sid).expect("stream id"));
+                let res = match tx.send_datagram(Bytes::from(payload.clone())) {
+                    Ok(()) => json!({"k": "ok"}),
+                    Err(e) => send_err(&e),
+                };
+                push(&$log, json!({"ev": "dg_sent", "sid": s["sid"], "payload": jbytes(&payload), "res": res}));
+            }
+            // (the peer is told how many datagrams to expect, reads them, then sends its own)
+            let n_ok = $log.lock().unwrap().iter().filter(|e| e["ev"] == "dg_sent" && e["res"]["k"] == "ok").count();
+            let _ = $go.send(n_ok);
+            let mut rx = $conn.get_datagram_reader();
+            let mut failed = false;
+            for _ in 0..$expect {
+                match tokio::time::timeout(WAIT, rx.read_datagram()).await {
+                    Err(_) => {
+                        push(&$log, json!({"ev": "dg_read", "res": {"k": "missing"}}));
+                        break;
+                    }
+                    Ok(Ok(d)) => {
+                        let sid: u64 = d.stream_id().into_inner();
+                        let p = d.into_payload();
+                        push(&$log, json!({"ev": "dg_read", "res": {"k": "datagram", "sid": b8(sid), "payload": jbytes(&p)}}));
+                    }
+                    Ok(Err(e)) => {
+                        push(&$log, json!({"ev": "dg_read", "res": proj::stream_err(&e)}));
+                        failed = true;
+                        break;
+                    }
+                }
+            }
+            // (the connection stays up until the peer has read what was sent to it)
+            let _ = tokio::time::timeout(CAP, $done).await;
+            failed
+        }};
+    }
+
+    pub async fn run_scenario(certs: &Certs, scn: &Value) -> Result<Vec<Value>, String> {
+        let is_client = scn["role"].as_str().unwrap_or("client") == "client";
+        let t = transport(0, 0, 0, 0);
+        let (c, s, cep, sep) = connect(certs, t.clone(), t).await?;
+        let (h3q, raw) = if is_client { (c, s) } else { (s, c) };
+        let log: Log = Arc::new(std::sync::Mutex::new(vec![]));
+        push(&log, json!({"ev": "reset", "scn": scn["id"], "role": scn["role"]}));
+        let sends: Vec<Value> = scn["sends"].as_array().cloned().unwrap_or_default();
+        let raws: Vec<Vec<u8>> = scn["raws"].as_array().map(|a| a.iter().map(bytes_of).collect()).unwrap_or_default();
+        let n_raws = raws.len();
+        let expect_close = scn["expect_close"] == true;
+        let (done_tx, done_rx) = tokio::sync::oneshot::channel::<()>();
+        let (go_tx, go_rx) = tokio::sync::oneshot::channel::<usize>();
+        let hl = log.clone();
+        let h3task = if is_client {
+            tokio::spawn(async move {
+                let mut b = h3::client::builder();
+                b.enable_datagram(true);
+                let (mut driver, sender) = match b.build::<_, _, Bytes>(h3_quinn::Connection::new(h3q)).await {
+                    Ok(x) => x,
+                    Err(e) => {
+                        push(&hl, json!({"ev": "driver", "res": proj::conn_err(&e)}));
+                        return;
+                    }
+                };
+                let failed = datagram_io!(hl, driver, sends, go_tx, n_raws, done_rx);
+                if failed {
+                    match tokio::time::timeout(CAP, poll_fn(|cx| driver.poll_close(cx))).await {
+                        Err(_) => push(&hl, json!({"ev": "driver", "res": {"k": "pending"}})),
+                        Ok(e) => push(&hl, json!({"ev": "driver", "res": proj::conn_err(&e)})),
+                    }
+                }
+                drop(sender);
+            })
+        } else {
+            tokio::spawn(async move {
+                let mut b = h3::server::builder();
+                b.enable_datagram(true);
+                let mut conn: h3::server::Connection<h3_quinn::Connection, Bytes> = match b.build(h3_quinn::Connection::new(h3q)).await {
+                    Ok(c) => c,
+                    Err(e) => {
+                        push(&hl, json!({"ev": "driver", "res": proj::conn_err(&e)}));
+                        return;
+                    }
+                };
+                let failed = datagram_io!(hl, conn, sends, go_tx, n_raws, done_rx);
+                if failed {
+                    match tokio::time::timeout(CAP, conn.accept()).await {
+                        Err(_) => push(&hl, json!({"ev": "driver", "res": {"k": "pending"}})),
+                        Ok(Ok(_)) => push(&hl, json!({"ev": "driver", "res": {"k": "no_error"}})),
+                        Ok(Err(e)) => push(&hl, json!({"ev": "driver", "res": proj::conn_err(&e)})),
+                    }
+                }
+            })
+        };
+        // ---- the raw peer: a control stream with SETTINGS (H3_DATAGRAM = 1), then it reads, then it sends
+        let mut keep: Vec<Box<dyn std::any::Any + Send>> = vec![];
+        if let Ok(mut ctl) = raw.open_uni().await {
+            let _ = ctl.write_all(&[0, 4, 2, 0x33, 1]).await;
+            keep.push(Box::new(ctl));
+        }
+        let n_ok = tokio::time::timeout(CAP, go_rx).await.ok().and_then(|r| r.ok()).unwrap_or(0);
+        for _ in 0..n_ok {
+            match tokio::time::timeout(WAIT, raw.read_datagram()).await {
+                Ok(Ok(b)) => push(&log, json!({"ev": "peer_got", "bytes": jbytes(&b)})),
+                _ => break,
+            }
+        }
+        let _ = done_tx.send(());
+        for r in raws.iter() {
+            let ok = raw.send_datagram(Bytes::from(r.clone())).is_ok();
+            push(&log, json!({"ev": "peer_sent", "bytes": jbytes(r), "ok": ok}));
+        }
+        // what the connection ended with, as the peer sees it (when the scenario holds a datagram h3 has to refuse)
+        if expect_close {
+            match tokio::time::timeout(WAIT, raw.closed()).await {
+                Ok(quinn::ConnectionError::ApplicationClosed(a)) => push(&log, json!({"ev": "peer_closed", "code": a.error_code.into_inner()})),
+                Ok(e) => push(&log, json!({"ev": "peer_closed", "code": -1, "dbg": format!("{e:?}")})),
+                Err(_) => {}
+            }
+        } else {
+            // the h3 side is through when it has read everything
+            let t0 = std::time::Instant::now();
+            while !h3task.is_finished() && t0.elapsed() < WAIT * 2 {
+                tokio::time::sleep(Duration::from_millis(1)).await;
+            }
+        }
+        raw.close(VarInt::from_u32(0x100), b"done");
+        match tokio::time::timeout(CAP * 2, h3task).await {
+            Err(_) => push(&log, json!({"ev": "pending", "api": "task"})),
+            Ok(Err(e)) if e.is_panic() => push(&log, json!({"ev": "panic", "msg": panic_msg(e.into_panic())})),
+            Ok(_) => {}
+        }
+        drop(keep);
+        cep.close(VarInt::from_u32(0), b"done");
+        sep.close(VarInt::from_u32(0), b"done");
+        let mut out = log.lock().unwrap().clone();
+        out.push(json!({"ev": "quiesce", "pending": []}));
+        Ok(out)
+    }
+}
+
+/// Family "H3CLS" (C17, error classes as they surface THROUGH h3): h3 over h3-quinn against a raw Quinn peer; a QUIC-level condition
+/// (idle timeout, application close with a code) arrives either while h3 is still building the connection (the peer grants no
+/// unidirectional streams, so the control stream cannot be opened) or once it is established.  Every h3 result is recorded with its
+/// class (`proj::conn_err`: ConnectionError::Timeout / Remote / Local) and judged by C17H_Trace.
+mod h3cls {
+    use super::*;
+    use crate::proj;
+
+    type Log = Arc<std::sync::Mutex<Vec<Value>>>;
+    fn res(log: &Log, api: &str, r: Value) {
+        log.lock().unwrap().push(json!({"ev": "h3_result", "api": api, "res": r}));
+    }
+    fn tcfg(no_uni: bool, idle_ms: u64) -> Arc<TransportConfig> {
+        let mut t = TransportConfig::default();
+        if no_uni {
+            t.max_concurrent_uni_streams(VarInt::from_u32(0));
+        }
+        if idle_ms > 0 {
+            t.max_idle_timeout(Some(Duration::from_millis(idle_ms).try_into().unwrap()));
+            t.initial_rtt(Duration::from_millis(10));
+        }
+        Arc::new(t)
+    }
+
+    pub async fn run_scenario(certs: &Certs, scn: &Value) -> Result<Vec<Value>, String> {
+        let is_client = scn["role"].as_str().unwrap_or("client") == "client";
+        let at_build = scn["when"] == "build";
+        let timeout = scn["cond"]["k"] == "timeout";
+        let idle = if timeout { 200 } else { 0 };
+        // the raw peer's configuration decides what h3 may open; the idle timeout is the minimum of both sides'
+        let raw_t = tcfg(at_build, idle);
+        let h3_t = tcfg(false, idle);
+        let (c, s, cep, sep) = if is_client { connect(certs, raw_t, h3_t).await? } else { connect(certs, h3_t, raw_t).await? };
+        let (h3q, raw) = if is_client { (c, s) } else { (s, c) };
+        let log: Log = Arc::new(std::sync::Mutex::new(vec![]));
+        log.lock().unwrap().push(json!({"ev": "reset", "scn": scn["id"], "role": scn["role"], "when": scn["when"], "cond": scn["cond"]}));
+        let hl = log.clone();
+        let h3task = if is_client {
+            tokio::spawn(async move {
+                let built = tokio::time::timeout(CAP, h3::client::builder().build::<_, _, Bytes>(h3_quinn::Connection::new(h3q))).await;
+                let (mut driver, mut sender) = match built {
+                    Err(_) => return res(&hl, "build", json!({"k": "pending"})),
+                    Ok(Err(e)) => return res(&hl, "build", proj::conn_err(&e)),
+                    Ok(Ok(x)) => {
+                        res(&hl, "build", json!({"k": "ok"}));
+                        x
+                    }
+                };
+                let dl = hl.clone();
+                let drive = tokio::spawn(async move {
+                    match tokio::time::timeout(CAP, poll_fn(|cx| driver.poll_close(cx))).await {
+                        Err(_) => res(&dl, "driver", json!({"k": "pending"})),
+                        Ok(e) => res(&dl, "driver", proj::conn_err(&e)),
+                    }
+                });
+                match sender.send_request(http::Request::get("https://a/").body(()).unwrap()).await {
+                    Err(e) => res(&hl, "send_request", proj::stream_err(&e)),
+                    Ok(mut st) => {
+                        let _ = st.finish().await;
+                        match tokio::time::timeout(CAP, st.recv_response()).await {
+                            Err(_) => res(&hl, "recv_response", json!({"k": "pending"})),
+                            Ok(Ok(_)) => res(&hl, "recv_response", json!({"k": "response"})),
+                            Ok(Err(e)) => res(&hl, "recv_response", proj::stream_err(&e)),
+                        }
+                    }
+                }
+                let _ = drive.await;
+            })
+        } else {
+            tokio::spawn(async move {
+                let built = tokio::time::timeout(CAP, h3::server::builder().build::<_, Bytes>(h3_quinn::Connection::new(h3q))).await;
+                let mut conn = match built {
+                    Err(_) => return res(&hl, "build", json!({"k": "pending"})),
+                    Ok(Err(e)) => return res(&hl, "build", proj::conn_err(&e)),
+                    Ok(Ok(x)) => {
+                        res(&hl, "build", json!({"k": "ok"}));
+                        x
+                    }
+                };
+                match tokio::time::timeout(CAP, conn.accept()).await {
+                    Err(_) => res(&hl, "driver", json!({"k": "pending"})),
+                    Ok(Ok(Some(_))) => res(&hl, "driver", json!({"k": "request"})),
+                    Ok(Ok(None)) => res(&hl, "driver", json!({"k": "none"})),
+                    Ok(Err(e)) => res(&hl, "driver", proj::conn_err(&e)),
+                }
+            })
+        };
+        // ---- the raw peer: silent (timeout) or closing with the scenario's code after a moment
+        let mut keep: Vec<Box<dyn std::any::Any + Send>> = vec![];
+        if !at_build {
+            if let Ok(mut ctl) = raw.open_uni().await {
+                let _ = ctl.write_all(&[0, 4, 0]).await;
+                keep.push(Box::new(ctl));
+            }
+        }
+        if !timeout {
+            tokio::time::sleep(Duration::from_millis(40)).await;
+            raw.close(VarInt::from_u64(scn["cond"]["code"].as_u64().unwrap_or(0)).unwrap_or(VarInt::from_u32(0)), b"bye");
+        }
+        match tokio::time::timeout(CAP * 3, h3task).await {
+            Err(_) => log.lock().unwrap().push(json!({"ev": "pending", "api": "task"})),
+            Ok(Err(e)) if e.is_panic() => log.lock().unwrap().push(json!({"ev": "panic", "msg": panic_msg(e.into_panic())})),
+            Ok(_) => {}
+        }
+        drop(keep);
+        raw.close(VarInt::from_u32(0x100), b"done");
+        cep.close(VarInt::from_u32(0), b"done");
+        sep.close(VarInt::from_u32(0), b"done");
+        let mut out = log.lock().unwrap().clone();
+        out.push(json!({"ev": "quiesce", "pending": []}));
+        Ok(out)
+    }
+}
+
 pub fn run(inp: &str, out: &str) -> Result<(), String> {
     let r = BufReader::new(std::fs::File::open(inp).map_err(|e| format!("{inp}: {e}"))?);
     let mut w = BufWriter::new(std::fs::File::create(out).map_err(|e| format!("{out}: {e}"))?);
@@ -1553,7 +1836,11 @@ pub fn run(inp: &str, out: &str) -> Result<(), String> {
         let scn: Value = serde_json::from_str(&line).map_err(|e| format!("scenario: {e}"))?;
         // a panic inside the adapter (outside the calls that are guarded individually) is data, not a tool failure
         let r = catch_unwind(AssertUnwindSafe(|| {
-            if scn["fam"] == "H3ERR" {
+            if scn["fam"] == "H3CLS" {
+                rt.block_on(h3cls::run_scenario(&certs, &scn))
+            } else if scn["fam"] == "H3DG" {
+                rt.block_on(h3dg::run_scenario(&certs, &scn))
+            } else if scn["fam"] == "H3ERR" {
                 rt.block_on(h3err::run_scenario(&certs, &scn))
             } else if scn["fam"] == "H3RAW" {
                 rt.block_on(h3raw::run_scenario(&certs, &scn))
@@ -1568,7 +1855,11 @@ pub fn run(inp: &str, out: &str) -> Result<(), String> {
             Err(e) => {
                 rt = tokio::runtime::Builder::new_current_thread().enable_all().build().map_err(|e| e.to_string())?;
                 vec![
-                    if scn["fam"] == "H3ERR" {
+                    if scn["fam"] == "H3CLS" {
+                        json!({"ev": "reset", "scn": scn["id"], "role": scn["role"], "when": scn["when"], "cond": scn["cond"]})
+                    } else if scn["fam"] == "H3DG" {
+                        json!({"ev": "reset", "scn": scn["id"], "role": scn["role"]})
+                    } else if scn["fam"] == "H3ERR" {
                         json!({"ev": "reset", "scn": scn["id"], "role": scn["role"], "prog": scn["prog"], "end": scn["end"], "again": scn["again"]})
                     } else if scn["fam"] == "H3RAW" {
                         json!({"ev": "reset", "scn": scn["id"], "role": scn["role"], "cfg": {}, "meta": {}, "wt": false})
